@@ -15,7 +15,8 @@ Three things are written, all obtained from the working tree named by VERIF_REPO
      * + - * // %, unary -, comparisons (chained), and/or/not, conditional expressions, min/max/len/int/abs,
        `x in (a, b, ..)`, `x in <list>`, tuple assignment, list subscript `l[i]` (negative i from the end; out of range
        is IndexError in Python and 0 here), `a, b = l[i : i + 2]`, `l[-n:]` (py_last), `[e] * n`, list `+`,
-       `[l[k] for k in ks]`, `np.prod(l)`, `all(e for v in l)`, `len(bin(v)[2:])`, list equality
+       `[l[k] for k in ks]`, `np.prod(l)`, `all(e for v in l)`, `len(bin(v)[2:])`, list equality,
+       chained assignment of a pure value `a = b = e`
      * `/` (true division of NumPy int32 shape elements as the reader produces them: IEEE, x/0 is inf or nan and raises
        nothing) kept as an exact fraction (num, den); `==` between fractions / with an integer, `in (2.0, 4.0, 8.0)`,
        `int(fraction)` (raises for inf/nan: the function becomes partial, result `option bool`, None = exception).
@@ -622,7 +623,14 @@ class Fn:
             return "%s", env
         if isinstance(s, ast.Assign):
             if len(s.targets) != 1:
-                raise Unsupported("multiple assignment")
+                # a = b = e : e is pure, so this is a = e; b = e
+                if not all(isinstance(t, ast.Name) for t in s.targets):
+                    raise Unsupported("chained assignment to non-names")
+                pre = "%s"
+                for t in s.targets:
+                    p1, env = self.bind_assign(t, s.value, env)
+                    pre = pre % p1 if pre != "%s" else p1
+                return pre, env
             return self.bind_assign(s.targets[0], s.value, env)
         if isinstance(s, ast.If):
             return self.bind_if(s, env)
@@ -646,6 +654,8 @@ class Fn:
                     env[target.id] = ("alias", txt)
                     return "%s", env
             t, ty = self.expr(value, env)
+            if ty == "floatlit":     # an integer-valued float literal bound to a name: the fraction n/1
+                t, ty = "(%s, 1)" % t, "frac"
             if ty not in ("Z", "bool", "listZ", "frac"):
                 raise Unsupported("binding of a %s to %s" % (ty, target.id))
             gv = self.newvar(env, target.id, ty)
